@@ -64,6 +64,7 @@ def delivered_value(repo: Repo, rep, P: str, mc):
         pass
     results = []          # (reversed?, smin, smax, dmin, dmax, delivered − CONV, type text)
     all_vmax: List[list] = []
+    starred_calls: List[str] = []
     for path in paths:
         alias: Dict[str, ast.expr] = {}
         env: Dict[str, alg.Poly] = {}
@@ -90,6 +91,8 @@ def delivered_value(repo: Repo, rep, P: str, mc):
             if isinstance(e, ast.Attribute) and e.attr in ("min", "max"):
                 return alg.Poly.sym(f"{e.attr}<{canon(e.value)}>")
             if isinstance(e, ast.Call) and norm(e.func).split(".")[-1] == "convert_value":
+                if any(isinstance(a, ast.Starred) for a in e.args) or any(k.arg is None for k in e.keywords):
+                    starred_calls.append(norm(e)[:120])          # argument positions are not readable from the call
                 got = []
                 for a in e.args[:6]:
                     try:
@@ -247,6 +250,9 @@ def delivered_value(repo: Repo, rep, P: str, mc):
         if not infeasible:
             results.append((reversed_fact, conv_args[-1] if conv_args else None, delivered))
     where = f"{rel}:{dnode.lineno}"
+    if starred_calls:
+        rep.inconclusive(f"{P}.R4", con, starred_calls[0], "convert_value is called with star-unpacked arguments: window / divisor positions not derived", where)
+        return
     # --- the scaling divisor handed to convert_value
     vm_bad, vm_unknown, vm_ok = None, None, False
     for cases in all_vmax:
